@@ -488,11 +488,12 @@ def rule_stop_flag(ctx, cfg, F):
             continue
         # the function that sets the flag also waits for the acknowledgement: that wait must happen under the guard too,
         # otherwise a concurrent second shutdown() sees the flag and returns while the router is still running
-        sets_flag = any(_stores_state(F, f, st) == stopped for b in f.live_blocks() for st in f.stmts(b)) if stopped is not None else False
+        sets_flag = (any(_stores_state(F, f, st) == stopped for b in f.live_blocks() for st in f.stmts(b)) or
+                     any(_call_stores_state(F, f, f.term(b)) == stopped for b in f.live_blocks())) if stopped is not None else False
         if sets_flag:
             # whoever asks for the stop records it: no way out of this function leaves the proxy "running" (a shutdown that returns early without
             # writing the state is lost, and a route offered afterwards is served)
-            stores = [b for b in f.live_blocks() if any(_stores_state(F, f, st) == stopped for st in f.stmts(b))]
+            stores = [b for b in f.live_blocks() if any(_stores_state(F, f, st) == stopped for st in f.stmts(b)) or _call_stores_state(F, f, f.term(b)) == stopped]
             if not f.all_paths_pass(0, set(stores) | set(stopped_targets))[0]:
                 R.violate("%s:returns-without-recording-stop" % f.path, "%s can return without having written the stopped state and without having found it already written" % f.path, f.path, f.loc(flag_switch), config=cfg)
                 continue
@@ -515,7 +516,7 @@ def rule_stop_flag(ctx, cfg, F):
                 continue
             # ... and on every way out: a caller for which the wait is skipped (a per-thread "I am the router" flag, a timeout) gets shutdown() back while the
             # router may still be running callbacks -- the flag cannot tell this router's thread from another router's
-            skipped = [sb for sb in stores if not f.all_paths_pass(sb, set(waits))[0]]
+            skipped = [sb for sb in stores if not f.all_paths_pass(sb, set(waits) | set(stopped_targets))[0]]
             if closure_skips and not skipped:
                 skipped = [stores[0]] if stores else [flag_switch]
             if skipped:
@@ -654,6 +655,15 @@ def _stores_state(F, f, st):
     return None
 
 
+def _call_stores_state(F, f, t):
+    """`mem::replace(&mut comm.shutdown, true)`: a store of the state through a call"""
+    if t["t"] == "call" and strip_generics(callee_name(t)) == "std::mem::replace" and len(t["args"]) == 2 and "bool" in " ".join(t.get("generics", [])):
+        c = op_const(t["args"][1])
+        if c is not None:
+            return ("bool", c)
+    return None
+
+
 def _stopped_value(F):
     """the value the stopping entry point writes: the only state store in the proxy's functions that is not the initial value"""
     vals = set()
@@ -663,6 +673,9 @@ def _stopped_value(F):
                 v = _stores_state(F, g, st)
                 if v is not None and v[1] not in (0, False):
                     vals.add(v)
+            v = _call_stores_state(F, g, g.term(b))
+            if v is not None and v[1] not in (0, False):
+                vals.add(v)
     return next(iter(vals)) if len(vals) == 1 else None
 
 
@@ -672,6 +685,22 @@ def _state_edges(F, f, tr, b):
     for s in f.succ(b):
         val = None
         for lab in edge_label(f, b, s):
+            if lab["kind"] == "not" and op_local(lab["of"]) is not None:
+                # `if !comm.shutdown { .. }`: the switch is on the negation of a copy of the state
+                ds_ = [d for d in f.defs().get(op_local(lab["of"]), []) if not f.is_cleanup(d[0])]
+                if len(ds_) == 1 and ds_[0][1] is not None and ds_[0][2]["rv"]["r"] == "use" and op_place(ds_[0][2]["rv"]["a"][0]) is not None:
+                    pl_ = ds_[0][2]["rv"]["a"][0]["pl"]
+                    if _is_state_type(F, _place_type(f, pl_)) and any(r.kind == "param" and r.id == 1 for r in tr.roots(pl_["l"])):
+                        hit = True
+                        val = 0 if lab["truth"] else 1
+                continue
+            if lab["kind"] == "callbool" and strip_generics(lab["callee"]) in ("std::mem::replace", "std::mem::take") and lab["args"]:
+                # `if mem::replace(&mut comm.shutdown, true) { return }`: the old value is what is tested (and the new one is stored, see _call_stores_state)
+                rp_ = ref_place(f, lab["args"][0])
+                if rp_ is not None and any(r.kind == "param" and r.id == 1 for r in tr.roots(rp_[0])) and "bool" in " ".join(f.term(lab["def_block"]).get("generics", []) or ["bool"]):
+                    hit = True
+                    val = 1 if lab["truth"] else 0
+                continue
             if lab["kind"] not in ("val", "val_not", "variant", "variant_not") or "place" not in lab:
                 continue
             ty = _place_type(f, lab["place"]) if lab["kind"] in ("val", "val_not") else (lab.get("adt") or "")
